@@ -10,7 +10,7 @@ REPO = os.environ.get('VERIF_REPO', '/repo')
 OUT = os.path.join(VERIF, 'vf', 'out')
 REPLAYS = os.path.join(VERIF, 'replays')
 EVIDENCE = os.path.join(VERIF, 'evidence')
-ALT_TREE = os.path.abspath(REPO) != '/repo'
+ALT_TREE = os.path.abspath(REPO) != '/repo' or bool(os.environ.get('VERIF_SCRATCH_OUTPUT'))
 if ALT_TREE:
     # a scratch tree (seeded / benign experiments): never touch the committed evidence
     REPLAYS = os.path.join(OUT, 'alt', 'replays')
